@@ -123,8 +123,10 @@ KeysKnown(kid) == kid = <<>> \/ (/\ \A i \in DOMAIN kid[1].k : kid[1].k[i] \in 1
 
 (* What C09 and C04 say about a persisted tree taken by itself (no reference to the history that led to it): they are judged
    even when the handle was tainted by an earlier violation of another property - a persisted root is a persisted root.      *)
+Malformed(e) == V("C09", "a persisted node does not have as many values as keys and one more child slot", e.h)
 RootIntrinsic(e) ==
-  IF e.res # "ok" \/ HasMissing(e.link) \/ ~KeysKnown(e.link) THEN {} ELSE
+  IF e.res # "ok" \/ HasMissing(e.link) \/ ~KeysKnown(e.link) THEN {}
+  ELSE IF ~WellFormed(e.link) THEN {Malformed(e)} ELSE
   LET es == Entries(e.link)
       shaped == Shape(e.link, e.rh, Layer, HiKey)
       ruleH == RuleHeight({es[i][1] : i \in DOMAIN es}, Layer, Bf)
@@ -231,12 +233,14 @@ TRoot == /\ Good("root")
                 base == t.hr.base
                 mods == t.hr.mods
                 garbled == ~HasMissing(Ev.link) /\ ~(KeysKnown(Ev.link) /\ \A i \in DOMAIN Ev.w : KeysKnown(<<Ev.w[i]>>))
-                missing == HasMissing(Ev.link) \/ garbled
+                malformed == ~HasMissing(Ev.link) /\ ~garbled /\ ~(WellFormed(Ev.link) /\ \A i \in DOMAIN Ev.w : WellFormed(<<Ev.w[i]>>))
+                missing == HasMissing(Ev.link) \/ garbled \/ malformed
                 newroot == [id |-> Ev.r, root |-> Ev.link, height |-> Ev.rh, size |-> Ev.rs, model |-> t.model,
                             ok |-> ~missing /\ \E i \in DOMAIN Ev.robs : Ev.robs[i].r = Ev.r /\
                                      ~RObsBad(Ev.robs[i], [model |-> t.model])]
                 vfail == IF Ev.res # "ok" THEN {V("C03", "persisting fails on a healthy store", Ev.h)} ELSE {}
                 vmiss == IF Ev.res = "ok" /\ garbled THEN {V("C05", "the persisted tree does not decode back to keys that were inserted (in the tree's own node format)", Ev.h)}
+                         ELSE IF Ev.res = "ok" /\ malformed THEN {Malformed(Ev)}
                          ELSE IF Ev.res = "ok" /\ missing THEN {V("C03", "returned root reaches a node that is not in the store", Ev.h)} ELSE {}
                 v04 == IF Ev.res # "ok" \/ missing THEN {} ELSE
                        (IF Ev.rh # ruleH THEN {V("C04", "persisted height differs from min(max layer, floor(log_bf(size-1)))", Ev.h)} ELSE {})
